@@ -309,7 +309,11 @@ PROPS["C19"] = {
              "goroutines with {1,7,8,9,100,3000,20000,50000} increments each on 1-3 label combinations of a RoundedCounterVec on real "
              "threads, 0-2 concurrent scrapers per combination; every scrape must be a multiple of 8, >= ceil8(increments returned "
              "before the scrape), <= ceil8(increments started when it ended), never decreasing; after the join = ceil8(total). "
-             "Non-trivial = at least two writers on one label combination. c19_journal: 1-60 address recordings (universe of 41 addresses with repetitions, occasional bulk of 200/3000 distinct "
+             "Non-trivial = at least two writers on one label combination. c19_periodic: a broker context created inside the "
+             "fake-clock bubble, so that its OWN 24-hour metrics goroutine runs: 1-4 days with generated numbers of denied client polls "
+             "per NAT class and idle proxy polls from a generated number of addresses; after every day boundary the lines that "
+             "goroutine wrote must carry that day's counts alone (rounded up to 8) and that day's distinct addresses. Non-trivial = at "
+             "least two days, one of them with events. c19_journal: 1-60 address recordings (universe of 41 addresses with repetitions, occasional bulk of 200/3000 distinct "
              "ones) through ClusterWriter on a fake clock with gaps of 0 / exactly the interval / interval+1ns / 3 intervals / ms, "
              "then 1-6 query windows whose edges sit before / at / after chunk boundaries. Oracle: reference chunking model; chunks "
              "included = chunks inside the window; estimate within max(2, 3%) of the distinct addresses in those chunks; no address "
@@ -319,6 +323,7 @@ PROPS["C19"] = {
     "units": [
         U("c19_bincount", "inpkg", "broker", "^TestVerifC19BinCount$", (2000, 20000), shards=(4, 8)),
         U("c19_counters", "inpkg", "broker", "^TestVerifC19Counters$", (500, 4000), timeout=(300, 3000), wedge_is_violation=True),
+        U("c19_periodic", "inpkg", "broker", "^TestVerifC19Periodic$", (150, 1500), shards=(2, 4), timeout=(300, 3000)),
         U("c19_rounded_concurrent", "inpkg", "broker", "^TestVerifC19RoundedConcurrent$", (400, 3000), shards=(4, 8), timeout=(300, 3000)),
         U("c19_journal", "ext", "c19", "^TestVerifC19Journal$", (400, 6000), timeout=(300, 3000)),
     ],
